@@ -50,6 +50,13 @@ def wrap_commands(drv, pre: Optional[Callable] = None,
         if pre is not None:
             pre(name, info)
         await orig(name, gen, **info)
+        # Scheduler.process_command_queue marks the workflow updated after
+        # every actioned command (resets a stale stall flag, refreshes the
+        # data store ...); commands run directly must do the same
+        ev = drv.sim.trace[-1]
+        if drv.sim.schd is not None and ev.get('k') == 'cmd' \
+                and not ev.get('err'):
+            drv.sim.schd.is_updated = True
         if post is not None:
             post(name, info, drv.sim.trace[-1])
 
